@@ -297,8 +297,11 @@ class Unit:
             for o, specs in by_ord.items():
                 if len(specs) > 1 and any(isinstance(k, str) for k in loops):
                     self.restructured.add(qname)    # one loop now does the work of several
-                m = dict(inv=[], inv_eb=[], ens=[], dec=None)
+                m = dict(inv=[], inv_eb=[], ens=[], dec=None, begin='', end='', before='', after='')
                 for sp in specs:
+                    for k in ('begin', 'end', 'before', 'after'):
+                        if sp.get(k):
+                            m[k] += sp[k] + '\n'
                     for k in ('inv', 'inv_eb', 'ens'):
                         for c in _clauses(sp.get(k)):
                             if all(c.text != d.text for d in m[k]):
@@ -320,11 +323,22 @@ class Unit:
                 txt += _emit_clauses('ensures', _clauses(spec.get('ens')), ind='        ')
             if spec.get('dec'):
                 txt += '            decreases ' + spec['dec'] + ',\n'
+            # proof text tied to the loop itself rather than to a statement in it (no anchor to lose):
+            #   begin / end = first / last thing in the loop body, before / after = just before the `while` / just after the loop
+            bend = match_bracket(body, bpos, '{', '}')
+            if spec.get('after'):
+                body = body[:bend + 1] + '\n' + spec['after'] + body[bend + 1:]
+            if spec.get('end'):
+                body = body[:bend] + spec['end'] + '\n' + body[bend:]
+            if spec.get('begin'):
+                body = body[:bpos + 1] + '\n' + spec['begin'] + body[bpos + 1:]
             seg = body[kwpos:bpos]
             if '/*@LOOPSPEC*/' in seg:
                 body = body[:kwpos] + seg.replace('/*@LOOPSPEC*/', '\n' + txt.rstrip('\n'), 1) + body[bpos:]
             else:
                 body = body[:bpos].rstrip() + '\n' + txt + '        ' + body[bpos:]
+            if spec.get('before'):
+                body = body[:kwpos] + spec['before'] + '\n' + body[kwpos:]
         body = body.replace('/*@LOOPSPEC*/', '')
         for sp in splices or []:
             (anchor, ins, where) = sp[:3]
